@@ -62,26 +62,53 @@ def run(repo, rep, tier):
                     stripped.add(t.slice.value)
         if isinstance(n, ast.Call) and isinstance(n.func, ast.Attribute) and n.func.attr == "pop" and n.args and isinstance(n.args[0], ast.Constant):
             stripped.add(n.args[0].value)
+    # filtering form: {k: v for k, v in self.__dict__.items() if k not in <constants>}  (constants: a literal or a module-level constant)
+    def const_strings(e):
+        if isinstance(e, ast.Name):
+            e = gs.module.assigns.get(e.id, e)
+        if isinstance(e, (ast.List, ast.Tuple, ast.Set)):
+            return [x.value for x in e.elts if isinstance(x, ast.Constant) and isinstance(x.value, str)]
+        if isinstance(e, ast.Call) and isinstance(e.func, ast.Name) and e.func.id in ("frozenset", "set", "tuple", "list") and e.args:
+            return const_strings(e.args[0])
+        return []
+    for n in walk_local_stmt(gs.node):
+        if isinstance(n, ast.DictComp) and f"{sn}.__dict__" in ast.unparse(n.generators[0].iter):
+            for cond in n.generators[0].ifs:
+                for cmpn in ast.walk(cond):
+                    if isinstance(cmpn, ast.Compare) and len(cmpn.ops) == 1:
+                        if isinstance(cmpn.ops[0], ast.NotIn):
+                            stripped |= set(const_strings(cmpn.comparators[0]))
+                        if isinstance(cmpn.ops[0], ast.NotEq):
+                            for side in (cmpn.left, cmpn.comparators[0]):
+                                if isinstance(side, ast.Constant) and isinstance(side.value, str):
+                                    stripped.add(side.value)
     ok = set(inst) == stripped == set(rebuilt) and bool(inst)
     r1.ob(ok, f"installed {sorted(inst)}, stripped {sorted(stripped)}, rebuilt {sorted(rebuilt)}")
     if not ok:
         rep.finding("R11.1", gs, gs.node, f"specialize() installs {sorted(inst)}, __getstate__ strips {sorted(stripped)}, __setstate__ "
                     f"rebuilds {sorted(rebuilt)}: an instance-level wrapper that is not stripped is pickled with a bound method of "
                     f"the original; one that is not rebuilt leaves the clone without fill.numpy/plot", stmt="wrapper attribute sets")
-    # __getstate__ works on a copy of __dict__
-    okc = False
+    # __getstate__ works on a copy of __dict__: the real dict (or a plain alias of it) is neither mutated nor handed out
+    real = {f"{sn}.__dict__"}
     for n in walk_local_stmt(gs.node):
-        if isinstance(n, ast.Assign) and isinstance(n.value, ast.Call):
-            v = n.value
-            if call_name(v) == "dict" and v.args and ast.unparse(v.args[0]) == f"{sn}.__dict__":
-                okc = True
-            if isinstance(v.func, ast.Attribute) and v.func.attr == "copy" and ast.unparse(v.func.value) == f"{sn}.__dict__":
-                okc = True
-        if isinstance(n, ast.Assign) and isinstance(n.value, (ast.Dict, ast.DictComp)) and f"{sn}.__dict__" in ast.unparse(n.value):
-            okc = True
-    # nothing may be deleted from / stored into self.__dict__ itself
+        if isinstance(n, ast.Assign) and ast.unparse(n.value) == f"{sn}.__dict__":
+            for t in n.targets:
+                if isinstance(t, ast.Name):
+                    real.add(t.id)
+    okc = True
     for n in walk_local_stmt(gs.node):
-        if isinstance(n, ast.Assign) and isinstance(n.value, ast.Attribute) and ast.unparse(n.value) == f"{sn}.__dict__":
+        if isinstance(n, ast.Delete):
+            for t in n.targets:
+                if isinstance(t, ast.Subscript) and ast.unparse(t.value) in real:
+                    okc = False
+        if isinstance(n, (ast.Assign, ast.AugAssign)):
+            for t in (n.targets if isinstance(n, ast.Assign) else [n.target]):
+                if isinstance(t, ast.Subscript) and ast.unparse(t.value) in real:
+                    okc = False
+        if isinstance(n, ast.Call) and isinstance(n.func, ast.Attribute) and n.func.attr in ("pop", "popitem", "clear", "update", "setdefault", "__delitem__") \
+                and ast.unparse(n.func.value) in real:
+            okc = False
+        if isinstance(n, ast.Return) and n.value is not None and ast.unparse(n.value) in real:
             okc = False
     r1.ob(okc, "__getstate__ copies __dict__ before stripping")
     if not okc:
@@ -161,7 +188,13 @@ def run(repo, rep, tier):
             if isinstance(tup, ast.Tuple):
                 for pname, argx in zip(f.params, tup.elts):
                     if pname.startswith("__") and pname.endswith("__"):
-                        attrs = {a.attr for a in ast.walk(argx) if isinstance(a, ast.Attribute)}
+                        src = argx
+                        if isinstance(argx, ast.Name):
+                            defs = [x.value for x in walk_local_stmt(red.node) if isinstance(x, ast.Assign) and any(
+                                isinstance(t, ast.Name) and t.id == argx.id for t in x.targets)]
+                            if len(defs) == 1:
+                                src = defs[0]        # a temporary such as `payload = marshal.dumps(expr.__code__)`
+                        attrs = {a.attr for a in ast.walk(src) if isinstance(a, ast.Attribute)}
                         good = pname in attrs
                         r2.ob(good, f"__reduce__ ({kind}): parameter {pname} of {callee} <- {ast.unparse(argx)[:40]}")
                         if not good:
